@@ -31,6 +31,7 @@ import (
 
 	"github.com/alicebob/miniredis/v2"
 	"github.com/alicebob/miniredis/v2/server"
+	red "github.com/redis/go-redis/v9"
 	"github.com/zeromicro/go-zero/core/logx"
 	"github.com/zeromicro/go-zero/core/stores/redis"
 	"github.com/zeromicro/go-zero/core/timex"
@@ -43,12 +44,86 @@ const (
 	c03PingMsg = "ERR verif ping held"
 )
 
-var c03Mode atomic.Int32 // 0 up, 1 down, 2 store up / ping held
+var c03Mode atomic.Int32 // 0 up, 1 down, 2 store up / ping held, 3 noscript, 4 noscript + eval fails, 5 evalsha fails
+
+const c03NoScriptMsg = "NOSCRIPT No matching script. Please use EVAL."
+
+// the script round trips (EVALSHA / EVAL) that reached the server since the last reset, in order
+var (
+	c03TripMu sync.Mutex
+	c03Trips  []string
+)
+
+func c03ResetTrips() {
+	c03TripMu.Lock()
+	c03Trips = nil
+	c03TripMu.Unlock()
+}
+
+func c03TripStr() string {
+	c03TripMu.Lock()
+	defer c03TripMu.Unlock()
+	if len(c03Trips) == 0 {
+		return "rt=-"
+	}
+	return "rt=" + strings.Join(c03Trips, "+")
+}
+
+// link modes of round 4 (op `link <mode>`): the script path of the store client
+//   noscript      EVALSHA is answered NOSCRIPT, the EVAL that go-redis sends then is served (PING fails: no monitor event)
+//   noscriptdown  EVALSHA is answered NOSCRIPT, everything else fails (the reload path ends in a store error)
+//   shadown       EVALSHA fails with another error; an EVAL would be served (the code must not send one); PING fails
+func c03LinkMode(name string) int32 {
+	switch name {
+	case "up":
+		return 0
+	case "down":
+		return 1
+	case "noscript":
+		return 3
+	case "noscriptdown":
+		return 4
+	case "shadown":
+		return 5
+	}
+	return -1
+}
 
 var c03Timeouts atomic.Int32 // recoveries that did not happen within the bound, in this process
 
 func c03Hook(c *server.Peer, cmd string, args ...string) bool {
+	isSha, isEval, isPing := strings.EqualFold(cmd, "EVALSHA"), strings.EqualFold(cmd, "EVAL"), strings.EqualFold(cmd, "PING")
+	if isSha || isEval {
+		c03TripMu.Lock()
+		c03Trips = append(c03Trips, strings.ToLower(cmd))
+		c03TripMu.Unlock()
+	}
+	if m := c03Mode.Load(); isEval && (m == 0 || m == 2 || m == 3) {
+		c03Flushed.Store(false) // served: the script is cached again
+	}
 	switch c03Mode.Load() {
+	case 3:
+		if isSha {
+			c.WriteError(c03NoScriptMsg)
+			return true
+		}
+		if isPing {
+			c.WriteError(c03PingMsg)
+			return true
+		}
+	case 4:
+		if isSha {
+			c.WriteError(c03NoScriptMsg)
+			return true
+		}
+		c.WriteError(c03DownMsg)
+		return true
+	case 5:
+		if isEval {
+			return false
+		}
+		c.WriteError(c03DownMsg)
+		return true
 	case 1:
 		c.WriteError(c03DownMsg)
 		return true
@@ -163,6 +238,24 @@ func c03GenPeriod(r *verifh.Rng) verifh.Section {
 			}
 			ops = append(ops, fmt.Sprintf("ft %d", ms))
 		case x < 95:
+			if r.Chance(1, 2) {
+				// the script path of the store client: cache flushed, NOSCRIPT reload served / failing, EVALSHA failing
+				switch r.Intn(4) {
+				case 0:
+					ops = append(ops, "ftake "+k)
+				case 1:
+					ops = append(ops, "link noscript", "take "+k, fmt.Sprintf("takec %s %d", k, r.Intn(nlim)), "takex "+k)
+					if r.Bool() {
+						ops = append(ops, fmt.Sprintf("ft %d", r.Range(1, win*1000)), "take "+k)
+					}
+					ops = append(ops, "link up")
+				case 2:
+					ops = append(ops, "link noscriptdown", "take "+k, "link up", "take "+k)
+				default:
+					ops = append(ops, "link shadown", "take "+k, "link up", "take "+k)
+				}
+				continue
+			}
 			ops = append(ops, "down", "take "+k)
 			switch r.Intn(4) {
 			case 0:
@@ -195,7 +288,11 @@ func c03GenPeriod(r *verifh.Rng) verifh.Section {
 			sinceFirst = 0
 		}
 	}
-	return verifh.Section{Cfg: fmt.Sprintf("kind=period quota=%d period=%d align=%d nlim=%d", quota, period, align, nlim), Ops: ops}
+	tz := 0
+	if align == 1 {
+		tz = r.Pick(0, 20700, -34200, 3600, 43200) // zone offset of time.Local in seconds (Align() adds it to the unix time)
+	}
+	return verifh.Section{Cfg: fmt.Sprintf("kind=period quota=%d period=%d align=%d nlim=%d tz=%d", quota, period, align, nlim, tz), Ops: ops}
 }
 
 func c03GenToken(r *verifh.Rng) verifh.Section {
@@ -358,7 +455,7 @@ func c03GenToken(r *verifh.Rng) verifh.Section {
 		case x < 95:
 			switch state {
 			case 0:
-				ops = append(ops, "down")
+				ops = append(ops, r.PickS("down", "down", "link noscriptdown", "link shadown"))
 				state = 1
 				if r.Bool() {
 					// only some instances notice the outage
@@ -399,9 +496,31 @@ func c03GenToken(r *verifh.Rng) verifh.Section {
 				allow(i)
 				skewNs += 1
 				allow(i)
+				if r.Chance(1, 3) {
+					ops = append(ops, "ping")
+				}
 			} else {
-				ft()
-				allow(i)
+				switch r.Intn(5) {
+				case 0:
+					// the server forgot the script: the next call reloads it
+					ops = append(ops, fmt.Sprintf("fallow %d %d %d", i, now(), size()))
+				case 1:
+					// every EVALSHA is answered NOSCRIPT: every call goes through the EVAL fallback
+					ops = append(ops, "link noscript")
+					for q := 0; q < ninst; q++ {
+						allow(q)
+					}
+					if r.Bool() {
+						ft()
+						allow(i)
+					}
+					ops = append(ops, "up")
+				case 2:
+					ops = append(ops, "ping")
+				default:
+					ft()
+					allow(i)
+				}
 			}
 		}
 	}
@@ -478,6 +597,28 @@ func c03ErrClass(err error) string {
 	}
 }
 
+// a second, plain go-redis client: SCRIPT FLUSH and the reference PING
+var c03Raw *red.Client
+
+// the server's script cache was flushed and no EVAL has been served since: concurrent calls would all be answered
+// NOSCRIPT at once and trip the client's breaker (finding 3) - concurrent ops are not run in that state
+var c03Flushed atomic.Bool
+
+// Redis.Ping() said false although the server answered PONG (seen once in this process): monitors are not waited for any more
+var c03PingBroken atomic.Bool
+
+func c03SkipConcurrent() bool { return c03Mode.Load() >= 3 || c03Flushed.Load() }
+
+func c03ScriptFlush() string {
+	old := c03Mode.Swap(0)
+	defer c03Mode.Store(old)
+	if err := c03Raw.ScriptFlush(context.Background()).Err(); err != nil {
+		return "flush-failed"
+	}
+	c03Flushed.Store(true)
+	return ""
+}
+
 func c03Cancelled() context.Context {
 	ctx, cancel := context.WithCancel(context.Background())
 	cancel()
@@ -505,8 +646,16 @@ func TestVerifC03(t *testing.T) {
 	NewPeriodLimit(1, 1, store, "warm:").Take("x")
 	NewTokenLimiter(1, 1, store, "warm").AllowN(time.Unix(c03Epoch, 0), 1)
 
+	c03Raw = red.NewClient(&red.Options{Addr: mr.Addr()})
+	defer c03Raw.Close()
+	warm := func() {
+		NewPeriodLimit(1, 1, store, "warm:").Take("x")
+		NewTokenLimiter(1, 1, store, "warm").AllowN(time.Unix(c03Epoch, 0), 1)
+	}
 	verifh.Run(t, secs, func(cfg verifh.Cfg) (func(op []string) string, func()) {
 		c03Mode.Store(0)
+		c03CleanBreaker()
+		warm() // every section starts with both scripts in the server's cache (an earlier section may have flushed them)
 		mr.FlushAll()
 		c03CleanBreaker()
 		switch cfg.Str("kind", "") {
@@ -556,14 +705,19 @@ func c03Period(mr *miniredis.Miniredis, store *redis.Redis, cfg verifh.Cfg) (fun
 		}
 	}
 	one := func(k string, f func() (int, error)) string {
+		c03ResetTrips()
 		u0 := c03LocalUnix()
 		code, err := f()
 		u1 := c03LocalUnix()
-		s := fmt.Sprintf("%d %s %s", code, c03ErrClass(err), c03Dump(mr, "cnt", prefix+k))
+		s := fmt.Sprintf("%d %s %s %s", code, c03ErrClass(err), c03Dump(mr, "cnt", prefix+k), c03TripStr())
 		if align {
 			s += fmt.Sprintf(" u=%d,%d", u0, u1)
 		}
 		return s
+	}
+	if tz := cfg.Int("tz", 0); tz != 0 {
+		// Align() reads the zone of time.Local: a zone with an offset makes `+ int64(offset)` observable
+		time.Local = time.FixedZone("verif", tz)
 	}
 	step := func(op []string) string {
 		c03CleanBreaker()
@@ -577,7 +731,20 @@ func c03Period(mr *miniredis.Miniredis, store *redis.Redis, cfg verifh.Cfg) (fun
 		case "up":
 			c03Mode.Store(0)
 			return "ok"
+		case "link":
+			m := c03LinkMode(op[1])
+			if m < 0 {
+				return "bad-op"
+			}
+			c03Mode.Store(m)
+			return "ok"
 		case "take":
+			return one(op[1], func() (int, error) { return lims[0].Take(op[1]) })
+		case "ftake":
+			// SCRIPT FLUSH, then one take: the server has forgotten the script, the take must reload it (EVALSHA -> NOSCRIPT -> EVAL)
+			if e := c03ScriptFlush(); e != "" {
+				return e
+			}
 			return one(op[1], func() (int, error) { return lims[0].Take(op[1]) })
 		case "takec":
 			j := verifh.Atoi(op[2])
@@ -588,6 +755,9 @@ func c03Period(mr *miniredis.Miniredis, store *redis.Redis, cfg verifh.Cfg) (fun
 		case "takex":
 			return one(op[1], func() (int, error) { return lims[0].TakeCtx(c03Cancelled(), op[1]) })
 		case "ctake":
+			if c03SkipConcurrent() {
+				return "skipped-link" // concurrent NOSCRIPT answers trip the client's breaker (finding 3): not run
+			}
 			m := verifh.Atoi(op[2])
 			if m < 1 || m > 64 {
 				return "bad-op"
@@ -625,6 +795,9 @@ func c03Period(mr *miniredis.Miniredis, store *redis.Redis, cfg verifh.Cfg) (fun
 			return s
 		case "cptake":
 			// g goroutines, goroutine j takes `c` permits of key keys[j % len] on limiter j % nlim
+			if c03SkipConcurrent() {
+				return "skipped-link"
+			}
 			g, c := verifh.Atoi(op[1]), verifh.Atoi(op[2])
 			keys := strings.Split(op[3], ",")
 			if g < 1 || c < 1 || g*c > 256 || len(keys) == 0 {
@@ -690,8 +863,10 @@ func c03Period(mr *miniredis.Miniredis, store *redis.Redis, cfg verifh.Cfg) (fun
 		}
 		return "bad-op"
 	}
-	return step, func() { c03Mode.Store(0) }
+	return step, func() { c03Mode.Store(0); time.Local = c03SavedLocal }
 }
+
+var c03SavedLocal = time.Local
 
 func c03Token(mr *miniredis.Miniredis, store *redis.Redis, cfg verifh.Cfg) (func(op []string) string, func()) {
 	rate, burst, ninst := cfg.Int("rate", 1), cfg.Int("burst", 1), cfg.Int("ninst", 1)
@@ -743,7 +918,20 @@ func c03Token(mr *miniredis.Miniredis, store *redis.Redis, cfg verifh.Cfg) (func
 	}
 	// every instance back on the store path and its monitor goroutine gone: "ok";
 	// an instance in rescue mode without monitor: "STUCK i" (final, not a matter of waiting); else "" after max
+	pingBroken := func() bool {
+		if c03PingBroken.Load() {
+			return true
+		}
+		if v, err := c03Raw.Ping(context.Background()).Result(); err == nil && v == "PONG" && !store.Ping() {
+			c03PingBroken.Store(true)
+			return true
+		}
+		return false
+	}
 	settle := func(max time.Duration) string {
+		if c03PingBroken.Load() {
+			return "" // no monitor can ever succeed: nothing to wait for
+		}
 		deadline := time.Now().Add(max)
 		for {
 			all := true
@@ -768,6 +956,11 @@ func c03Token(mr *miniredis.Miniredis, store *redis.Redis, cfg verifh.Cfg) (func
 		}
 	}
 	recoverAll := func() string {
+		// the monitors can only come back if Redis.Ping() recognises the server's PONG: check that first instead of
+		// waiting for goroutines that can never succeed
+		if pingBroken() {
+			return "PINGBROKEN raw=PONG ping=0"
+		}
 		t0 := time.Now()
 		bound := 20 * time.Second
 		if c03Timeouts.Load() > 0 {
@@ -808,6 +1001,20 @@ func c03Token(mr *miniredis.Miniredis, store *redis.Redis, cfg verifh.Cfg) (func
 		case "upstore":
 			c03Mode.Store(2)
 			return "ok"
+		case "link":
+			m := c03LinkMode(op[1])
+			if m < 3 {
+				return "bad-op"
+			}
+			c03Mode.Store(m)
+			return "ok"
+		case "ping":
+			// what Redis.Ping() says next to what a plain client's PING gets in the same link state
+			ref := "err"
+			if v, err := c03Raw.Ping(context.Background()).Result(); err == nil {
+				ref = v
+			}
+			return fmt.Sprintf("ping=%s raw=%s", b2s(store.Ping()), ref)
 		case "up":
 			c03Mode.Store(0)
 			return recoverAll()
@@ -831,8 +1038,11 @@ func c03Token(mr *miniredis.Miniredis, store *redis.Redis, cfg verifh.Cfg) (func
 				l.startMonitor()
 				return recoverAll()
 			}
-			l.rescueLock.Lock()
 			c03Mode.Store(0)
+			if pingBroken() {
+				return "PINGBROKEN raw=PONG ping=0"
+			}
+			l.rescueLock.Lock()
 			deadline := time.Now().Add(20 * time.Second)
 			for atomic.LoadUint32(&l.redisAlive) == 0 {
 				if time.Now().After(deadline) {
@@ -846,20 +1056,30 @@ func c03Token(mr *miniredis.Miniredis, store *redis.Redis, cfg verifh.Cfg) (func
 			l.rescueLock.Unlock()
 			l.startMonitor()
 			return recoverAll()
-		case "allow", "allowc", "allowx":
+		case "allow", "allowc", "allowx", "fallow":
 			i := verifh.Atoi(op[1])
 			if i < 0 || i >= ninst {
 				return "bad-op"
 			}
+			if op[0] == "fallow" {
+				if e := c03ScriptFlush(); e != "" {
+					return e
+				}
+			}
 			before, _ := flags(lims[i])
+			c03ResetTrips()
 			ok := call(lims[i], op[0], verifh.Atoi64(op[2]), verifh.Atoi(op[3]))
+			trips := c03TripStr()
 			a, m := flags(lims[i])
 			res := "no"
 			if ok {
 				res = "ok"
 			}
-			return fmt.Sprintf("%s a=%s s=%s%s %s", res, b2s(before), b2s(a), b2s(m), dump())
+			return fmt.Sprintf("%s a=%s s=%s%s %s %s", res, b2s(before), b2s(a), b2s(m), dump(), trips)
 		case "callow":
+			if c03SkipConcurrent() {
+				return "skipped-link"
+			}
 			ns, n, m := verifh.Atoi64(op[1]), verifh.Atoi(op[2]), verifh.Atoi(op[3])
 			if m > ninst {
 				return "bad-op"
@@ -890,6 +1110,9 @@ func c03Token(mr *miniredis.Miniredis, store *redis.Redis, cfg verifh.Cfg) (func
 			// who wins is schedule dependent on the store path (the driver then reads only the count)
 			return fmt.Sprintf("%d %s %s", grants, bits, dump())
 		case "cstorm":
+			if c03SkipConcurrent() {
+				return "skipped-link"
+			}
 			// g goroutines x c calls of (ns, n); goroutine j uses instance j % ninst (so instances are
 			// shared by goroutines as soon as g > ninst)
 			ns, n, g, c := verifh.Atoi64(op[1]), verifh.Atoi(op[2]), verifh.Atoi(op[3]), verifh.Atoi(op[4])
@@ -927,6 +1150,9 @@ func c03Token(mr *miniredis.Miniredis, store *redis.Redis, cfg verifh.Cfg) (func
 			}
 			return fmt.Sprintf("%d %s %s %s", total, strings.Join(per, ","), allFlags(), dump())
 		case "cmix":
+			if c03SkipConcurrent() {
+				return "skipped-link"
+			}
 			// one goroutine per entry inst:n, all at `ns`
 			ns := verifh.Atoi64(op[1])
 			ents := strings.Split(op[2], ",")
